@@ -245,6 +245,15 @@ def check_critical_sections():
                                "(working-page test inside the locked part) are not what the source does")
     if not re.search(r"if\s*\(\s*page->alloc_count\s*==\s*0\s*&&\s*page\s*!=\s*s_page_base\(bin->page_cursor\)\s*\)", ftb_b):
         raise GenError("s_sba_free_to_bin: the drained-page test `alloc_count == 0 && page != s_page_base(bin->page_cursor)` is not of the modelled shape")
+    for fn in ("aws_small_block_allocator_bytes_active", "aws_small_block_allocator_bytes_reserved"):
+        mb = body(r"size_t\s+" + fn + r"\s*\(\s*struct\s+aws_allocator\s*\*sba_allocator\)")
+        if len(re.findall(r"sba->lock\(&bin->mutex\);", mb)) != 1 or len(re.findall(r"sba->unlock\(&bin->mutex\);", mb)) != 1 \
+                or re.search(r"\bcontinue\b|\bbreak\b|\bgoto\b", mb):
+            raise GenError(f"{fn}: each bin is no longer read between one blocking sba->lock and sba->unlock "
+                           "(the model reads every bin; a try-lock / skipped bin leaves live blocks out of the sum)")
+    members = set(re.findall(r"\bsba->(\w+)", src))
+    if members - {"allocator", "bins", "lock", "unlock"}:
+        raise GenError("small_block_allocator has members the model does not know: " + ", ".join(sorted(members - {"allocator", "bins", "lock", "unlock"})))
     n_calls = len(re.findall(r"\bs_sba_free_to_bin\s*\(", src)) + len(re.findall(r"\bs_sba_alloc_from_bin\s*\(", src))
     if n_calls != 5:     # 2 definitions, 2 locked call sites, 1 recursive call inside s_sba_alloc_from_bin
         raise GenError("bin operations are called from a place other than the two locked call sites")
@@ -1203,6 +1212,11 @@ def sched_scenarios(cls):
         ("first-page-race", 0, [(0, "a a ra"), (0, "a a rz")]),
         ("mixed", pp - 1, [((pp - 1) // 2, "rz a"), (pp - 1 - (pp - 1) // 2, "ra a a ra")]),
         ("two-pages", pp + 1, [(1, "ra"), (pp - 1, "rz"), (1, "ra a a")]),
+        # a third thread reads bytes_active while the others are inside the bins (every bin is read under its lock: the
+        # value must lie within what the live blocks summed to during the call)
+        ("metric-vs-exhaust", pp - 2, [(1, "ra"), (pp - 3, "a a a ra"), (0, "m m m")]),
+        ("metric-vs-drain", pp, [(1, "rl a"), (pp - 1, "ra"), (0, "m m")]),
+        ("metric-two-readers", 2, [(2, "a rf a ra"), (0, "m m"), (0, "m a m ra")]),
     ]
 
 
